@@ -79,6 +79,13 @@ class Normalise(ast.NodeTransformer):
                 setattr(node, f, self._body(getattr(node, f)))
         return node
 
+    def visit_Call(self, node):
+        self.generic_visit(node)
+        # argparse help texts are documentation
+        if isinstance(node.func, ast.Attribute) and node.func.attr == 'add_argument':
+            node.keywords = [k for k in node.keywords if k.arg != 'help']
+        return node
+
     def visit_FunctionDef(self, node):
         self.generic_visit(node)
         node.returns = None
